@@ -76,3 +76,8 @@ def class_attr(key, name):
 
 def set_class_attr(key, name, value):
     raise NotImplementedError("set_class_attr is an engine-only helper")
+
+
+def clock_now():
+    """the value the last time.monotonic_ns() call returned (engine only)"""
+    raise NotImplementedError("clock_now is an engine-only helper")
